@@ -192,3 +192,11 @@ PROPS = {
                         "exact channel on the f32 build: integers below 2^24, where f32 arithmetic is exact"],
     },
 }
+
+# thorough tier: the random budgets are multiplied so that each thorough command spends minutes, not
+# seconds (the systematic grids of the generators are already at their thorough size)
+THOROUGH_SCALE = {"C01": 4, "C02": 2, "C03": 1, "C04": 4, "C05": 6, "C06": 5, "C07": 1, "C08": 5, "C09": 6, "C10": 4,
+                  "C11": 6, "C12": 6, "C13": 8, "C14": 6, "C15": 6, "C16": 1, "C17": 6, "C18": 5, "C19": 3}
+for _pid, _k in THOROUGH_SCALE.items():
+    for _f in PROPS[_pid]["families"]:
+        _f["thorough"] = _f["thorough"] * _k
